@@ -229,6 +229,60 @@ def r7_enumerate(src):
     return _ENUM_RE.sub(rep, src), n
 
 
+def r8_unwrap_or_else(src):
+    """R8 (closure schema, generic): `RECV.unwrap_or_else(|| BODY)` with a parameterless closure is `Option::unwrap_or_else`, whose
+    documented meaning is its defining match: `(match RECV { Some(__v) => __v, None => { BODY } })`. RECV is the postfix chain in
+    front of the call (identifiers, field/method accesses, balanced argument lists), BODY is lifted verbatim. Applied innermost
+    first until none is left; inert on text without such a call. Runs after a unit's own rewrites."""
+    total = 0
+    while True:
+        st = sig(lex(src))
+        edit = None
+        for i in range(len(st) - 1, -1, -1):
+            t = st[i]
+            if t.kind == "ident" and t.text == "unwrap_or_else" and i >= 2 and st[i - 1].text == "." \
+                    and i + 2 < len(st) and st[i + 1].text == "(" and st[i + 2].text == "||":
+                close = match_close(st, i + 1)
+                # innermost first: skip if the body contains another such call
+                inner = any(st[k].kind == "ident" and st[k].text == "unwrap_or_else" and st[k + 1].text == "(" and st[k + 2].text == "||"
+                            for k in range(i + 3, close - 2))
+                if inner:
+                    continue
+                # receiver: walk back over the postfix chain
+                r = i - 2
+                while True:
+                    if st[r].text in (")", "]"):
+                        depth = 0
+                        while r >= 0:
+                            if st[r].text in (")", "]"):
+                                depth += 1
+                            elif st[r].text in ("(", "["):
+                                depth -= 1
+                                if depth == 0:
+                                    break
+                            r -= 1
+                        if r > 0 and st[r - 1].kind == "ident":
+                            r -= 1
+                    elif st[r].kind == "ident":
+                        pass
+                    else:
+                        r += 1
+                        break
+                    if r >= 2 and st[r - 1].text in (".", "::") :
+                        r -= 2
+                        continue
+                    break
+                recv = src[st[r].start:st[i - 2].end]
+                body = src[st[i + 3].start:st[close - 1].end] if close - 1 >= i + 3 else ""
+                edit = (st[r].start, st[close].end, f"(match {recv} {{ Some(__v) => __v, None => {{ {body} }} }})")
+                break
+        if edit is None:
+            break
+        src = _rebuild(src, [edit])
+        total += 1
+    return src, total
+
+
 def r13_bool_bitor(src):
     """`a.b | c.d` where every operand is a plain field path and the expression is the scrutinee of a
     `match` with `true`/`false` arms (or an `if` condition): `|` -> `||`."""
